@@ -973,7 +973,7 @@ public:
 	{
 		static class unique_array<reference<T> >::default_data _dummy(content_traits());
 		content<reference<T> > *data = &_dummy;
-		if (len >= 0) data = data->detach(len * sizeof(T));
+		if (len >= 0) data = data->detach(len * sizeof(reference<T>));
 		this->_ref.set_instance(data ? data : &_dummy);
 	}
 	bool insert(long pos, T *ref)
@@ -1023,7 +1023,7 @@ public:
 	}
 protected:
 	static const type_traits &content_traits() {
-		static type_traits traits(sizeof(T), _unref_reference, 0);
+		static type_traits traits(sizeof(reference<T>), _unref_reference, 0);
 		return traits;
 	}
 	static void _unref_reference(void *ptr)
